@@ -1063,7 +1063,9 @@ coap_oscore_decrypt_pdu(coap_session_t *session,
 
     incoming_seq =
         coap_decode_var_bytes8(cose->partial_iv.s, cose->partial_iv.length);
-    rcp_ctx->last_seq = incoming_seq;
+    /* once armed, oscore_validate_sender_seq() maintains last_seq (highest seen) */
+    if (rcp_ctx->initial_state == 1)
+      rcp_ctx->last_seq = incoming_seq;
   } else { /* !coap_request */
     /*
      * 8.4 Step 2
